@@ -99,19 +99,19 @@ func ctlTargets() []ctlTarget {
 
 	return []ctlTarget{
 		{name: "gen_isScaleOnStarve", rel: "pkg/controller", fn: "Controller.isScaleOnStarve", recv: ctl,
-			params:  []cv{state, {k: ckRec, vt: "Usage", coq: "u"}, {k: ckRec, vt: "Capacity", coq: "k"}, nodeList("untainted")},
-			from:    "start", to: "end", typ: "bool",
+			params: []cv{state, {k: ckRec, vt: "Usage", coq: "u"}, {k: ckRec, vt: "Capacity", coq: "k"}, nodeList("untainted")},
+			from:   "start", to: "end", typ: "bool",
 			binders: "(o : opts) (maxn : Z) (u : usage) (k : capacity) (untainted : list node)",
 			doc:     "controller.go isScaleOnStarve  <->  Scan.scale_on_starve"},
 
 		{name: "gen_calculateNodesToAdd", rel: "pkg/controller", fn: "Controller.calculateNodesToAdd", recv: ctl,
-			params:  []cv{cvInt("want"), cvInt("target"), cvInt("maxn")},
-			from:    "start", to: "end", typ: "Z", binders: "(want target maxn : Z)",
-			doc:     "scale_up.go calculateNodesToAdd  <->  Scan.nodes_to_add"},
+			params: []cv{cvInt("want"), cvInt("target"), cvInt("maxn")},
+			from:   "start", to: "end", typ: "Z", binders: "(want target maxn : Z)",
+			doc: "scale_up.go calculateNodesToAdd  <->  Scan.nodes_to_add"},
 
 		{name: "gen_scaleUpCloudProviderNodeGroup", rel: "pkg/controller", fn: "Controller.scaleUpCloudProviderNodeGroup", recv: ctl,
-			params:  []cv{scaleOpts},
-			from:    "start", to: "end", typ: "gout",
+			params: []cv{scaleOpts},
+			from:   "start", to: "end", typ: "gout",
 			binders: "(e : env) (o : opts) (maxn : Z) (found : bool) (g : asg) (want : Z)",
 			stops: map[string]stopSpec{"IncreaseSize": argsReport(func(t *translator, call *ast.CallExpr, recv cv, args []cv) ([]cv, error) {
 				if recv.k != ckRec || recv.vt != "CloudGroup" || recv.coq != "g" {
@@ -122,8 +122,8 @@ func ctlTargets() []ctlTarget {
 			doc: "scale_up.go scaleUpCloudProviderNodeGroup: clamp against min(MaxNodes, MaxSize) and the refusal  <->  the cloud part of Scan.scale_up"},
 
 		{name: "gen_scaleDownTaint", rel: "pkg/controller", fn: "Controller.scaleDownTaint", recv: ctl,
-			params:  []cv{scaleOpts},
-			from:    "start", to: "end", typ: "gout", binders: "(mn : Z) (untainted : list node) (want : Z)",
+			params: []cv{scaleOpts},
+			from:   "start", to: "end", typ: "gout", binders: "(mn : Z) (untainted : list node) (want : Z)",
 			stops: map[string]stopSpec{"taintOldestN": argsReport(func(t *translator, call *ast.CallExpr, recv cv, args []cv) ([]cv, error) {
 				if err := wantKinds(t, call, args, ckList, ckRec, ckInt); err != nil {
 					return nil, err
@@ -137,13 +137,13 @@ func ctlTargets() []ctlTarget {
 
 		{name: "gen_scaleNodeGroup_exits", rel: "pkg/controller", fn: "Controller.scaleNodeGroup", recv: ctl,
 			params: []cv{groupName, state}, origins: upTo(5),
-			from:   "afterCall:filterNodes", to: "beforeCall:CreateNodeNameToInfoMap", typ: "gout",
+			from: "afterCall:filterNodes", to: "beforeCall:CreateNodeNameToInfoMap", typ: "gout",
 			binders: "(mn maxn : Z) (nodes : list node) (pods : list pod)",
 			doc:     "controller.go scaleNodeGroup, from filterNodes to CreateNodeNameToInfoMap: the early exits  <->  the first tests of Scan.scan_group"},
 
 		{name: "gen_scaleNodeGroup_recover", rel: "pkg/controller", fn: "Controller.scaleNodeGroup", recv: ctl,
 			params: []cv{groupName, state}, origins: upTo(7),
-			from:   "atCall:locked", to: "beforeCall:calcPercentUsage", typ: "gout",
+			from: "atCall:locked", to: "beforeCall:calcPercentUsage", typ: "gout",
 			binders:  "(mn : Z) (locked : bool) (nodes untainted tainted forced : list node)",
 			outCalls: []origin{{"locked", 0, cv{}}},
 			stops: map[string]stopSpec{"ScaleUp": argsReport(func(t *translator, call *ast.CallExpr, recv cv, args []cv) ([]cv, error) {
@@ -160,7 +160,7 @@ func ctlTargets() []ctlTarget {
 
 		{name: "gen_scaleNodeGroup_decide", rel: "pkg/controller", fn: "Controller.scaleNodeGroup", recv: ctl,
 			params: []cv{groupName, state}, origins: upTo(9),
-			from:   "afterCall:calculateNewNodeMetrics", to: "beforeCall:isScaleOnStarve", typ: "gout",
+			from: "afterCall:calculateNewNodeMetrics", to: "beforeCall:isScaleOnStarve", typ: "gout",
 			binders:  "(o : opts) (cpuP memP : f64) (us : usage) (untainted : list node)",
 			outCalls: []origin{{"calcScaleUpDelta", 0, cv{}}},
 			stops: map[string]stopSpec{"calcScaleUpDelta": argsReport(func(t *translator, call *ast.CallExpr, recv cv, args []cv) ([]cv, error) {
@@ -175,19 +175,19 @@ func ctlTargets() []ctlTarget {
 			doc: "controller.go scaleNodeGroup, from calculateNewNodeMetrics to isScaleOnStarve: the threshold switch  <->  Scan.decide"},
 
 		{name: "gen_scaleOnMaxNodeAge", rel: "pkg/controller", fn: "Controller.scaleOnMaxNodeAge", recv: ctl,
-			params:  []cv{state, nodeList("untainted"), nodeList("tainted")},
-			from:    "start", to: "end", typ: "bool",
+			params: []cv{state, nodeList("untainted"), nodeList("tainted")},
+			from:   "start", to: "end", typ: "bool",
 			binders: "(e : env) (o : opts) (mn : Z) (untainted tainted : list node)",
 			doc:     "controller.go scaleOnMaxNodeAge  <->  Scan.scale_on_max_age"},
 
 		{name: "gen_safeFromDeletion", rel: "pkg/controller", fn: "safeFromDeletion",
-			params:  []cv{{k: ckRec, vt: "Node", coq: "n"}},
-			from:    "start", to: "end", typ: "bool", keep: []int{1}, binders: "(n : node)",
-			doc:     "scale_down.go safeFromDeletion (its boolean result)  <->  Scan.safe_from_deletion"},
+			params: []cv{{k: ckRec, vt: "Node", coq: "n"}},
+			from:   "start", to: "end", typ: "bool", keep: []int{1}, binders: "(n : node)",
+			doc: "scale_down.go safeFromDeletion (its boolean result)  <->  Scan.safe_from_deletion"},
 
 		{name: "gen_TryRemoveTaintedNodes_keep", rel: "pkg/controller", fn: "Controller.TryRemoveTaintedNodes", recv: ctl,
-			params:  []cv{scaleOpts},
-			from:    "start", to: "end", loopOver: "tainted", loopVar: cv{k: ckRec, vt: "Node", coq: "n"}, typ: "pred",
+			params: []cv{scaleOpts},
+			from:   "start", to: "end", loopOver: "tainted", loopVar: cv{k: ckRec, vt: "Node", coq: "n"}, typ: "pred",
 			binders: "(e : env) (o : opts) (pods : list pod) (gtr_err : bool) (n : node)",
 			stops: map[string]stopSpec{"append": argsReport(func(t *translator, call *ast.CallExpr, recv cv, args []cv) ([]cv, error) {
 				if len(args) != 2 || args[1].k != ckRec || args[1].coq != "n" {
@@ -198,9 +198,9 @@ func ctlTargets() []ctlTarget {
 			doc: "scale_down.go TryRemoveTaintedNodes, body of the loop over the tainted nodes: is the candidate appended to toBeDeleted  <->  the filter of Scan.reap_candidates"},
 
 		{name: "gen_dryMode", rel: "pkg/controller", fn: "Controller.dryMode", recv: ctl,
-			params:  []cv{state},
-			from:    "start", to: "end", typ: "bool", binders: "(e : env) (o : opts)",
-			doc:     "controller.go dryMode  <->  `e_dry e || o_dry o` of Scan.scan_group"},
+			params: []cv{state},
+			from:   "start", to: "end", typ: "bool", binders: "(e : env) (o : opts)",
+			doc: "controller.go dryMode  <->  `e_dry e || o_dry o` of Scan.scan_group"},
 
 		{name: "gen_RunOnce_minmax", rel: "pkg/controller", fn: "Controller.RunOnce", recv: ctl,
 			from: "start", to: "end", loopOver: "groups", loopVar: cv{k: ckRec, vt: "CfgOpts", coq: "o"}, typ: "gout",
@@ -229,14 +229,14 @@ func ctlTargets() []ctlTarget {
 			doc: "controller.go RunOnce, body of the loop over the node groups up to the scaleNodeGroup call: the min/max the scan runs with  <->  Scan.effective_min_max (and the missing cloud group)"},
 
 		{name: "gen_IncreaseSize_guard", rel: "pkg/cloudprovider/aws", fn: "NodeGroup.IncreaseSize", recv: awsGroup,
-			params:  []cv{cvInt("d")},
-			from:    "start", to: "beforeCall:canScaleInOneShot", typ: "gout", binders: "(a : asg) (d : Z)",
-			doc:     "aws.go IncreaseSize, up to the choice of strategy: the two refusals  <->  the guards of Aws.aws_increase"},
+			params: []cv{cvInt("d")},
+			from:   "start", to: "beforeCall:canScaleInOneShot", typ: "gout", binders: "(a : asg) (d : Z)",
+			doc: "aws.go IncreaseSize, up to the choice of strategy: the two refusals  <->  the guards of Aws.aws_increase"},
 
 		{name: "gen_DeleteNodes_guard", rel: "pkg/cloudprovider/aws", fn: "NodeGroup.DeleteNodes", recv: awsGroup,
-			params:  []cv{nodeList("nodes")},
-			from:    "start", to: "beforeRange", typ: "gout", binders: "(a : asg) (nodes : list node)",
-			doc:     "aws.go DeleteNodes, up to the loop: the two refusals  <->  the guards of Aws.aws_delete_nodes"},
+			params: []cv{nodeList("nodes")},
+			from:   "start", to: "beforeRange", typ: "gout", binders: "(a : asg) (nodes : list node)",
+			doc: "aws.go DeleteNodes, up to the loop: the two refusals  <->  the guards of Aws.aws_delete_nodes"},
 	}
 }
 
